@@ -113,6 +113,29 @@ def run(ctx):
         ctx.check(not bad, "R2", "every-suffix-of-every-route-is-visited", ctx.where(body, tm["sp"]),
                   "the selection loops may end only when their iterators are exhausted (other exits: %s); an early exit makes the "
                   "outcome depend on the order routes are written in" % (bad or "none"))
+    # every suffix is put to the test: between taking the next suffix from the iterator and the suffix test there is no branch that
+    # could skip the test (a condition on the search state there makes the result depend on the order of the table)
+    for bb, tm in ews:
+        mine = [l for l in loops if bb in l]
+        if not mine:
+            continue
+        inner = min(mine, key=len)
+        starts = []
+        for u in inner:
+            tmu = body.blocks[u]["term"]
+            if tmu["k"] == "switch":
+                d = norm(T.at_term(tmu["discr"], u))
+                if d[0] == "discr" and d[1][0] == "call" and str(d[1][1]).endswith("::next"):
+                    starts.extend(v for (_, v) in discr_edges(cfg, u, 1) if v in inner)
+        skips = []
+        for s0 in starts:
+            between = {x for x in cfg.reachable_from(s0, blocked=(bb,)) if x in inner and bb in cfg.reachable_from(x)}
+            for x in between:
+                tx = body.blocks[x]["term"]
+                if tx["k"] == "switch" and len({v for v in cfg.succ[x] if body.blocks[v]["term"] is None or body.blocks[v]["term"]["k"] != "unreachable"}) > 1:
+                    skips.append("bb%d (%s)" % (x, P.rel(body.blocks[x]["stmts"][-1]["sp"]) if body.blocks[x]["stmts"] else "?"))
+        ctx.check(bool(starts) and not skips, "R2", "suffix-test-not-skipped-under-a-condition", ctx.where(body, tm["sp"]),
+                  "a branch between fetching a suffix and testing it: %s" % (skips or "none"))
     # replacement only when strictly longer
     cmpf = "erbium::dns::dnspkt::compare_longest_suffix"
 
